@@ -437,8 +437,20 @@ func SpellTight(toks []Tok, d Delims, hy []bool, tight []bool) string {
 // Source prints nodes with default delimiters, conventional spacing and no hyphens.
 func Source(nodes []*N) string { return Spell(Tokens(nodes, nil), DefaultDelims, nil) }
 
-// SourceSp prints nodes with default delimiters and a spacing policy.
-func SourceSp(nodes []*N, sp *Spacer) string { return Spell(Tokens(nodes, sp), DefaultDelims, nil) }
+// SourceSp prints nodes with default delimiters and a spacing policy. A policy
+// whose first choice is "none" also leaves out the padding next to the
+// delimiters ({{x}}, {%if x%}) wherever that is unambiguous.
+func SourceSp(nodes []*N, sp *Spacer) string {
+	toks := Tokens(nodes, sp)
+	if sp != nil && len(sp.Seq) > 0 && sp.Seq[0]%len(spaceChoices) == 0 {
+		tight := make([]bool, CountTags(toks))
+		for i := range tight {
+			tight[i] = true
+		}
+		return SpellTight(toks, DefaultDelims, nil, tight)
+	}
+	return Spell(toks, DefaultDelims, nil)
+}
 
 // CountTags counts the non-text tokens.
 func CountTags(toks []Tok) int {
